@@ -724,10 +724,13 @@ def run_case(case, ctx):
         judge(case, c, exp, out, chunks, rec, ctx)
         key = (c["decompress"], c["max_body"], hold)
         summ = _summary(out, chunks)
-        if "not a gzip member" in exp.why or exp.members > 1:
+        if ("not a gzip member" in exp.why or exp.members > 1
+                or (case.get("gz") in ("two_members", "garbage_tail") and c["decompress"])):
+            # also when the strict reader stopped before the body (UNSPECIFIED head): the generator knows the body
+            # is a multi-member gzip stream, whose segmentation-dependent decoding is the recorded known finding
             ctx.count("segmentation_exempt_gzip_after_member")
             continue
-        outcomes.setdefault(key, []).append((summ, c))
+        outcomes.setdefault(key, []).append((summ, c, repr(out[1])[:200] if out[0] == "err" else None))
     # segmentation independence (also for classes whose accept/reject verdict is not pinned)
     for key, lst in outcomes.items():
         if len(lst) > 1:
@@ -737,7 +740,8 @@ def run_case(case, ctx):
                 if other[0] != first[0]:
                     ctx.violation("segmentation/outcome-differs",
                                   "the same response stream gave different fetch outcomes under different segmentations / read plans",
-                                  {"a": first, "b": other, "stream": case["stream"][:600], "method": case["method"]})
+                                  {"a": first, "b": other, "stream": case["stream"][:600], "method": case["method"],
+                                   "why": [r[1].why for r in results][:1]})
                     break
     unc = [r for r in lm.uncaught() if not _harness_noise(r)]
     ctx.count("log_evals")
